@@ -49,7 +49,10 @@ func genSendFaultsPlan(seed uint64, tier string) *Plan {
 		for _, se := range sfSecondary {
 			n++
 			p.Ops = append(p.Ops, Op{Kind: "failover", ID: fmt.Sprintf("fo%d", n), S: map[string]string{"primary": pr, "secondary": se},
-				I: map[string]int{"msgs": 1 + g.intn(3), "size": g.pick2(0, 10, 300, 3000, 20000), "offset": g.intn(100000), "cell": n}})
+				I: map[string]int{"msgs": 1 + g.intn(3), "size": g.pick2(0, 10, 300, 3000, 20000), "offset": g.intn(100000), "cell": n,
+					// the messages of one transaction may be minutes apart; the transport is looked up again for each, as the
+					// proxy does (the table's once-a-minute clean-up runs inside the lookup)
+					"gapS": g.pick2(0, 0, 61, 125, 600)}})
 		}
 	}
 	for _, st := range sfBackend {
@@ -209,6 +212,7 @@ func execSendFaults(t *testing.T, p *Plan) *Result {
 					failOffset = op.I["offset"] % len(wires[0])
 				}
 				staleWarm := false
+				sleeping := false
 				phase := 0
 				gate := &simrt.Gate{}
 				w.K.Spawn("sender-"+op.ID, true, func() {
@@ -245,6 +249,14 @@ func execSendFaults(t *testing.T, p *Plan) *Result {
 					phase = 2
 					gate.Wait()
 					for k := range msgs {
+						if gap := op.I["gapS"]; k > 0 && gap > 0 {
+							sleeping = true
+							simrt.Sleep(time.Duration(gap) * time.Second)
+							sleeping = false
+							if again, err := mgr.GetTransport("tcp", dstIP, 5060, "10.0.0.1", "MESSAGE-"+op.ID); err == nil {
+								trans = again
+							}
+						}
 						err := trans.Send(msgs[k])
 						res.errs = append(res.errs, err != nil)
 						if k == 0 && se == "refusing-then-up" {
@@ -257,8 +269,12 @@ func execSendFaults(t *testing.T, p *Plan) *Result {
 					res.done = true
 				})
 				// drive: phases let the kernel inject peer actions between steps
-				for step := 0; step < 8 && !res.done; step++ {
+				for step := 0; step < 10 && !res.done; step++ {
 					w.K.Settle(time.Second)
+					if gap := op.I["gapS"]; gap > 0 && !res.done && sleeping {
+						w.K.Advance(time.Duration(gap)*time.Second + time.Second) // the sender pauses between two messages
+						w.K.Settle(time.Second)
+					}
 					if res.done {
 						break
 					}
